@@ -1383,6 +1383,8 @@ impl BufferParser for Parser {
                         } else {
                             1
                         };
+                        // every step reaches an earlier tab stop or column 0, where it stays
+                        let num = min(num, i32::try_from(buf.terminal_state.tab_count()).unwrap_or(i32::MAX).saturating_add(1));
                         (0..num).for_each(|_| caret.set_x_position(buf.terminal_state.prev_tab_stop(caret.get_position().x)));
                         return Ok(CallbackAction::Update);
                     }
